@@ -114,7 +114,7 @@ func VerifC04_Signer() {
 		trusted = []*x509.Certificate{ts.cert}
 	}
 	chains := core.NewCertificateChains([][]*x509.Certificate{{ee.cert, ca.cert}}, trusted)
-	akiForm := verifrt.Choose(3)
+	akiForm := verifrt.Choose(6)
 	var exts []pkix.Extension
 	switch akiForm {
 	case 1:
@@ -124,6 +124,22 @@ func VerifC04_Signer() {
 		akiModel = extensionsupport.AuthorityKeyIdentifier{AuthorityCertSerialNumber: big.NewInt(101)}
 		akiModel.AuthorityCertIssuer.DirectoryName.Bytes = []byte{0x30, 0x02, 0x31, 0x00}
 		exts = []pkix.Extension{{Id: oidAKI, Value: []byte{0x30, 0x00}}}
+	case 3: // issuer+serial form whose authorityCertIssuer is not a directory name (a URI): names nobody
+		akiModel = extensionsupport.AuthorityKeyIdentifier{AuthorityCertSerialNumber: big.NewInt(101)}
+		akiModel.AuthorityCertIssuer.UniformResourceIdentifier.Bytes = []byte("http://ca.example/")
+		exts = []pkix.Extension{{Id: oidAKI, Value: []byte{0x30, 0x00}}}
+	case 4: // authorityCertIssuer without serial number and without key identifier: identifies nobody
+		akiModel = extensionsupport.AuthorityKeyIdentifier{}
+		akiModel.AuthorityCertIssuer.DirectoryName.Bytes = []byte{0x30, 0x02, 0x31, 0x00}
+		exts = []pkix.Extension{{Id: oidAKI, Value: []byte{0x30, 0x00}}}
+	case 5: // key identifier AND issuer+serial (both name the signer)
+		akiModel = extensionsupport.AuthorityKeyIdentifier{KeyIdentifier: []byte{0x6b, 0x31}, AuthorityCertSerialNumber: big.NewInt(101)}
+		akiModel.AuthorityCertIssuer.DirectoryName.Bytes = []byte{0x30, 0x02, 0x31, 0x00}
+		exts = []pkix.Extension{{Id: oidAKI, Value: []byte{0x30, 0x00}}}
+	}
+	if akiForm >= 2 {
+		// like encoding/asn1: Raw holds the encoding of a GeneralName that is present
+		akiModel.AuthorityCertIssuer.Raw = []byte{0xa1, 0x06, 0xa4, 0x04, 0x30, 0x02, 0x31, 0x00}
 	}
 	var extp *[]pkix.Extension
 	if akiForm != 0 {
@@ -134,22 +150,35 @@ func VerifC04_Signer() {
 	result := &crlreader.CRLReadResult{HashAndVerifyStrategy: hv, Signature: &asn1parserBitString, CalculatedSignature: []byte{1}, Issuer: crlstore.VerifRdn("CN=CA"), CRLExtensions: extp}
 	got, err := verifyCRLSignature(result, chains)
 
-	entitled := func(m *certModel) bool {
+	// entitledBy(m, all): with an AKI that carries both forms (5), "all" = named by both (then it MUST
+	// be accepted), otherwise named by at least one of them (then it MAY be accepted)
+	entitledBy := func(m *certModel, all bool) bool {
 		if m == nil || m.role == 0 {
 			return false
 		}
 		if m.cert.KeyUsage != 0 && m.cert.KeyUsage&x509.KeyUsageCRLSign == 0 {
 			return false
 		}
+		bySki := m.ski[1] == 0x31
+		bySerial := m.cert.SerialNumber.Cmp(big.NewInt(101)) == 0 && m.issuer == "CN=ROOT"
 		switch akiForm {
 		case 0:
 			return m.subject == "CN=CA"
 		case 1:
-			return m.ski[1] == 0x31
-		default:
-			return m.cert.SerialNumber.Cmp(big.NewInt(101)) == 0 && m.issuer == "CN=ROOT"
+			return bySki
+		case 2:
+			return bySerial
+		case 5:
+			if all {
+				return bySki && bySerial
+			}
+			return bySki || bySerial
+		default: // 3, 4: the AKI identifies no certificate
+			return false
 		}
 	}
+	entitled := func(m *certModel) bool { return entitledBy(m, false) }
+	mustAccept := func(m *certModel) bool { return entitledBy(m, true) }
 	if err == nil {
 		verifrt.Reach("verified")
 		m := certModels[got.Certificate]
@@ -158,7 +187,7 @@ func VerifC04_Signer() {
 		verifrt.Assert(entitled(m), "the signer is a CA above the end-entity or a trusted signer, matches name/AKI, and its keyUsage permits CRL signing")
 	} else {
 		verifrt.Reach("rejected")
-		someone := (entitled(ca) && ca.keyValid) || (ts != nil && entitled(ts) && ts.keyValid)
+		someone := (mustAccept(ca) && ca.keyValid) || (ts != nil && mustAccept(ts) && ts.keyValid)
 		verifrt.Assert(!someone, "a CRL signed by an entitled issuer is accepted")
 	}
 }
